@@ -12,6 +12,7 @@ for tc in ET.parse(out).getroot().iter("testcase"):
   if not any(ch.tag in ("failure", "error", "skipped") for ch in tc):
     passed.add("%s::%s" % (tc.get("classname"), tc.get("name")))
 os.remove(out)
+subprocess.run("git -C /repo checkout -- .coverage", shell=True)  # pytest-cov rewrites this tracked file
 want = set(base["stable_pass"])
 missing = sorted(want - passed)
 print("stable_pass: %d, passed now: %d, missing: %d, newly passing: %d" % (len(want), len(passed), len(missing), len(passed - want)))
